@@ -63,16 +63,21 @@ def main():
                 demo = cand / "test_demo.py"
             res = {"property": pid, "candidate": k, "repo_head": head}
             sh("git checkout -q -- .", cwd=wt)
-            rc, out = sh(f"{PY} {demo}", cwd=wt, env={"PYTHONPATH": str(wt)})
+            # the demonstration runs in the worktree it was written for (some demos name it): clean, then patched
+            sh("git checkout -q -- .", cwd=src)
+            rc, out = sh(f"{PY} {demo}", cwd=src, env={"PYTHONPATH": str(src)})
             res["demo_clean_rc"] = rc
+            rc, out = sh(f"git apply {patch}", cwd=src)
+            if rc == 0:
+                rc2, out2 = sh(f"{PY} {demo}", cwd=src, env={"PYTHONPATH": str(src)})
+                res["demo_patched_rc"] = rc2
+                sh("git checkout -q -- .", cwd=src)
             rc, out = sh(f"git apply {patch}", cwd=wt)
             if rc != 0:
                 res["error"] = "patch does not apply: " + out[-300:]
                 print(json.dumps(res))
                 continue
             try:
-                rc, out = sh(f"{PY} {demo}", cwd=wt, env={"PYTHONPATH": str(wt)})
-                res["demo_patched_rc"] = rc
                 res["suite_patched"] = suite(wt)
                 scratch = Path(tempfile.mkdtemp(prefix="seedrun-"))
                 env = {"VERIF_REPO": str(wt), "VERIF_EVIDENCE_DIR": str(scratch / "ev"), "VERIF_REPLAY_DIR": str(scratch / "replay")}
